@@ -12,6 +12,7 @@ import (
 	"github.com/sirupsen/logrus"
 
 	"hop.computer/hop/common"
+	"hop.computer/hop/pkg/vt"
 	"hop.computer/hop/transport"
 )
 
@@ -570,6 +571,9 @@ func (m *Muxer) Stop() (sendErr error, recvErr error) {
 
 	m.state.Store(muxerStopping)
 	m.m.Unlock()
+	if vt.On {
+		vt.Yield("mux.stop.stopping")
+	}
 
 	// If tubes do not correctly close after some time, assume they never will and force them to close.
 	time.AfterFunc(muxerTimeout, func() {
@@ -595,7 +599,13 @@ func (m *Muxer) Stop() (sendErr error, recvErr error) {
 
 	// Wait for all tubes to close
 	wg.Wait()
+	if vt.On {
+		vt.Yield("mux.stop.tubesclosed")
+	}
 	m.state.Store(muxerStopped)
+	if vt.On {
+		vt.Yield("mux.stop.stopped")
+	}
 
 	close(m.prioritySendQueue)
 	close(m.sendQueue)
